@@ -2,6 +2,7 @@ import EaselModel.Core.Proto
 import EaselModel.Dsqdata.Codec
 import EaselModel.Dsqdata.Loader
 import EaselModel.Dsqdata.Meta
+import EaselModel.Dsqdata.Format
 import EaselModel.WorkQueue.Model
 import EaselModel.Threads.Model
 import EaselModel.Pipeline.Progress
@@ -300,6 +301,141 @@ def hexList (s : String) : List (List UInt8) :=
   -- element = "x" ++ hex (possibly empty); "-" = no element
   if s == "-" then [] else (s.splitOn ",").map fun h => (bytesOfHexAux (h.toList.drop 1) []).getD []
 
+
+/-! ### dsqdata at byte level: the four files, Open's validation, the loader's freads -/
+
+def abcType (abc : String) : Nat := if abc == "amino" then 3 else if abc == "rna" then 1 else 2
+
+/-- the records of an op: names, accs (default empty), descs, taxids (default -1), dsq -/
+def recsOf (ws : List String) : Option (List SeqRec) :=
+  match arg? ws "names", arg? ws "descs", arg? ws "dsq" with
+  | some names, some descs, some dsq =>
+    let names := hexList names
+    let descs := hexList descs
+    let ds := hexList dsq
+    let accs := match arg? ws "accs" with | some a => hexList a | none => names.map fun _ => []
+    let taxids : List Int := match arg? ws "taxids" with
+      | some t => (t.splitOn ",").filterMap String.toInt?
+      | none => []
+    some ((List.range names.length).map fun i =>
+      { name := names.getD i [], acc := accs.getD i [], desc := descs.getD i [],
+        taxid := ((taxids.getD i (-1)) % (4294967296 : Int)).toNat, dsq := ds.getD i [] })
+  | _, _, _ => none
+
+/-- the `ESL_XFAIL` messages of `esl_dsqdata_Open`, blanks as underscores (the two with `%` arguments cut before them) -/
+def openMsg (e : Nat) : String :=
+  let m := match e with
+    | 1 => "stub file is empty - no tag line found"
+    | 2 => "stub file has bad format: tag line has no data"
+    | 3 => "stub file has bad format in tag line"
+    | 4 => "stub file has bad format: no v on version"
+    | 5 => "stub file had bad format: no version number"
+    | 6 => "stub file has bad format: no x on tag"
+    | 7 => "stub file had bad format: no integer tag"
+    | 8 => "index file has no header - is empty?"
+    | 9 => "index file header truncated, no tag"
+    | 10 => "index file header truncated, no alphatype"
+    | 11 => "index file header truncated, no flags"
+    | 12 => "index file header truncated, no max name len"
+    | 13 => "index file header truncated, no max accession len"
+    | 14 => "index file header truncated, no max description len"
+    | 15 => "index file header truncated, no max seq len"
+    | 16 => "index file header truncated, no nseq"
+    | 17 => "index file header truncated, no nres"
+    | 18 => "index file has bad tag, doesn't go with stub file"
+    | 19 => "index file has bad magic"
+    | 20 => "data files use"
+    | 21 => "index file has invalid alphabet type"
+    | 22 => "metadata file has no header - is empty?"
+    | 23 => "metadata file header truncated - no tag?"
+    | 24 => "metadata file has bad magic"
+    | 25 => "metadata file has bad tag, doesn't match stub"
+    | 26 => "sequence file has no header - is empty?"
+    | 27 => "sequence file header truncated - no tag?"
+    | 28 => "sequence file has bad magic"
+    | 29 => "sequence file has bad tag, doesn't match stub"
+    | _ => "?"
+  m.map fun c => if c == ' ' then '_' else c
+
+/-- one mutation `file:off:xor` (xor the byte at `off`, no-op beyond the end) or `file:trunc:len` -/
+def mutate (f : Files) (spec : String) : Files :=
+  match spec.splitOn ":" with
+  | [which, a, b] =>
+    let edit (bs : List UInt8) : List UInt8 :=
+      if a == "trunc" then bs.take (b.toNat?.getD 0)
+      else
+        let off := a.toNat?.getD 0
+        let x := UInt8.ofNat (b.toNat?.getD 0)
+        if off < bs.length then bs.take off ++ [(bs.getD off 0) ^^^ x] ++ bs.drop (off + 1) else bs
+    if which == "stub" then { f with stub := edit f.stub }
+    else if which == "dsqi" then { f with idx := edit f.idx }
+    else if which == "dsqm" then { f with mdat := edit f.mdat }
+    else if which == "dsqs" then { f with seq := edit f.seq }
+    else f
+  | _ => f
+
+def digestRecs (rs : List SeqRec) : UInt64 :=
+  rs.foldl (fun h r =>
+    let h := fnvBytes h r.name; let h := fnvByte h 0
+    let h := fnvBytes h r.acc; let h := fnvByte h 0
+    let h := fnvBytes h r.desc; let h := fnvByte h 0
+    let h := fnvNat h (if r.taxid ≥ 2^31 then r.taxid + (2^64 - 2^32) else r.taxid)     -- sign-extended int64
+    let h := fnvNat h r.dsq.length
+    fnvBytes h r.dsq) fnv0
+
+def limits (ws : List String) : Nat × Nat :=
+  let maxseq0 := (argNat? ws "maxseq").getD 0
+  let maxpacket0 := (argNat? ws "maxpacket").getD 0
+  (if maxseq0 = 0 then MAXSEQ else maxseq0, if maxpacket0 = 0 then MAXPACKET else maxpacket0)
+
+/-- `dsqwrite` (with the tag and the sequence file's name the real run reported): the bytes of the four files -/
+def dsqwriteOp (ws : List String) : String :=
+  match arg? ws "tag", recsOf ws with
+  | none, some db =>
+    match writeDb 0 (abcType ((arg? ws "abc").getD "dna")) [] [] db with
+    | .ok _ => "ok deferred"
+    | .eunimplemented => "write-eunimplemented"
+    | .einval => "write-einval"
+  | some tag, some db =>
+    let fname := (argHex? ws "fname").getD []
+    match writeDb (tag.toNat?.getD 0) (abcType ((arg? ws "abc").getD "dna")) fname "FASTA".toUTF8.toList db with
+    | .ok f => s!"ok stub={hexOrDash f.stub} dsqi={hexOrDash f.idx} dsqm={hexOrDash f.mdat} dsqs={hexOrDash f.seq}"
+    | .eunimplemented => "write-eunimplemented"
+    | .einval => "write-einval"
+  | _, none => "bad-op"
+
+/-- `dsqopen`: write, mutate the files, `esl_dsqdata_Open`, and (when it succeeds) read everything -/
+def dsqopenOp (ws : List String) : String :=
+  match arg? ws "tag", recsOf ws with
+  | none, some db =>
+    match writeDb 0 (abcType ((arg? ws "abc").getD "dna")) [] [] db with
+    | .ok _ => "ok deferred"
+    | .eunimplemented => "write-eunimplemented"
+    | .einval => "write-einval"
+  | some tag, some db =>
+    let fname := (argHex? ws "fname").getD []
+    match writeDb (tag.toNat?.getD 0) (abcType ((arg? ws "abc").getD "dna")) fname "FASTA".toUTF8.toList db with
+    | .ok f =>
+      let muts := match arg? ws "mut" with | some m => if m == "-" then [] else m.splitOn "," | none => []
+      let f := muts.foldl mutate f
+      let expect := match arg? ws "expect" with
+        | some "amino" => some 3 | some "dna" => some 2 | some "rna" => some 1 | _ => none
+      match openDb expect f with
+      | .eformat e => s!"open-eformat msg={openMsg e}"
+      | .eunimplemented => "open-eunimplemented"
+      | .fatal => "fault"
+      | .ok o =>
+        let (maxseq, maxpacket) := limits ws
+        match readDb maxseq maxpacket o with
+        | none => "fault"
+        | some cs =>
+          let rs := cs.flatMap (·.2)
+          let cstr := if cs.isEmpty then "-" else ",".intercalate (cs.map fun c => s!"{c.1.i0}:{c.1.n}:{c.1.pn}")
+          s!"open-ok hdr={o.nseq}/{o.nres}/{o.maxSeqlen}/{o.maxName}/{o.maxAcc}/{o.maxDesc}/{o.flags}/{o.alphatype}/{if o.pack5 then 5 else 2} nseq={rs.length} chunks={cstr} digest={(digestRecs rs).toNat}"
+    | .eunimplemented => "write-eunimplemented"
+    | .einval => "write-einval"
+  | _, none => "bad-op"
+
 /-- `dsqrt`: predicted chunking and content digest of a database written from the given records and read back -/
 def dsqrt (ws : List String) : String :=
   match arg? ws "abc", argNat? ws "maxseq", argNat? ws "maxpacket", arg? ws "names", arg? ws "descs", arg? ws "dsq" with
@@ -429,6 +565,8 @@ def step' (st : S) (line : String) : S × String :=
     | some n, some r => (st, s!"ok workers={n} rounds={r} idx=ok early=0")
     | _, _ => (st, "bad-op")
   | "dsqrt" :: _ => (st, dsqrt ws)
+  | "dsqwrite" :: _ => (st, dsqwriteOp ws)
+  | "dsqopen" :: _ => (st, dsqopenOp ws)
   | _ => (st, "bad-op")
 
 def main : IO Unit := runDriver ({} : S) step'
